@@ -1,3 +1,106 @@
-From YV Require Import PyBase ShellMap.
-Example c14_smoke : norm_idx (-1) 5 = 4%nat.
-Proof. reflexivity. Qed.
+(* C14 -- a proofreader match is reported at the flagged word in the LaTeX
+   file.  Only statements; proofs in proofs/ShellMapProofs.v and
+   proofs/ReportsProofs.v.  Model: coq/model/ShellMap.v, Reports.v. *)
+From Coq Require Import Sorting.Permutation Sorting.Sorted.
+From YV Require Import PyBase CharTables ShellMap ShellMapProofs Json Reports ReportsProofs.
+Open Scope Z_scope.
+
+(* (1) if the position map is exact on the flagged span (consecutive source
+   positions, as C02 gives for a copied word), the reported offset and length
+   select that very word in the LaTeX text (up to the documented extension of
+   a lone backslash to the macro name) *)
+Theorem C14_map_position_exact : forall o l latex cm p0,
+  0 <= o -> 1 <= l -> o + l <= zlen cm -> 1 <= p0 ->
+  (forall k, 0 <= k < l -> nth_error cm (Z.to_nat (o + k)) = Some (p0 + k)) ->
+  map_match_position o l latex cm =
+    Ok (p0 - 1, correct_mark_macroname (p0 - 1) l latex).
+Proof. exact map_position_exact. Qed.
+Print Assumptions C14_map_position_exact.
+
+(* (2) line and column: the line start lies at or before the offset, no line
+   break between them, it is 0 or follows a line break, line-1 counts the
+   line breaks before the offset, column = distance to the line start + 1 *)
+Theorem C14_linecol : forall tex off,
+  0 <= off <= zlen tex ->
+  let ls := line_start_to tex off in
+  0 <= ls <= off /\
+  Forall (fun c => N.eqb c_nl c = false)
+         (pyslice tex (Z.to_nat ls) (Z.to_nat off)) /\
+  (ls = 0 \/ nth_error tex (Z.to_nat (ls - 1)) = Some c_nl) /\
+  fst (text_loc tex off) - 1 = Z.of_nat (count_char c_nl (firstn (Z.to_nat off) tex)) /\
+  snd (text_loc tex off) = off - ls + 1.
+Proof. exact linecol_spec. Qed.
+Print Assumptions C14_linecol.
+
+(* (3) all formats are functions of the same offset and length *)
+Theorem C14_formats_agree : forall tex off len,
+  json_loc tex off len =
+    (fst (text_loc tex off) - 1, snd (text_loc tex off) - 1,
+     fst (text_loc tex (off + len - 1)) - 1, snd (text_loc tex (off + len - 1)))
+  /\ xml_loc tex off len false = json_loc tex off len
+  /\ xml_loc tex off len true =
+      (count_nl_to tex off, utf8_len (zslice tex (line_start_to tex off) off),
+       count_nl_to tex (off + len - 1),
+       utf8_len (zslice tex (line_start_to tex (off + len - 1)) (off + len - 1 + 1))).
+Proof.
+  intros. split; [apply formats_agree|]. split; [apply xml_agrees_json | apply xml_bytes_spec].
+Qed.
+Print Assumptions C14_formats_agree.
+
+(* (4) several parts: a match of a part is found in the assembled result,
+   shifted by d, and from d on the assembled text and map are those of the
+   part -- so offset and length select the same word and the same positions *)
+Theorem C14_assemble_shift : forall ps acc a,
+  Forall (part_ok py_isspace) ps -> acc_ok acc ->
+  assemble_parts py_isspace ps acc = Ok a ->
+  forall p m, In p ps -> nonblank py_isspace (p_plain p) -> In m (p_matches p) ->
+  exists d : nat,
+    In (shift_match (Z.of_nat d) m) (a_matches a) /\
+    forall k, (k < length (p_plain p))%nat ->
+      nth_error (a_plain a) (d + k) = nth_error (p_plain p) k /\
+      nth_error (a_map a) (d + k) = nth_error (p_map p) k.
+Proof. exact (assemble_shift py_isspace). Qed.
+Print Assumptions C14_assemble_shift.
+
+(* (5) messages are ordered by position in the LaTeX file: the reported
+   matches are a permutation of the assembled ones, sorted by the absolute
+   source position of their first character; equal keys keep their order *)
+Theorem C14_sorted : forall ps a,
+  run_assemble py_isspace ps = Ok a ->
+  exists a0 ks,
+    assemble_parts py_isspace ps {| a_plain := []; a_map := []; a_matches := [] |} = Ok a0 /\
+    keys (a_map a0) (a_matches a0) = Ok ks /\
+    a_plain a = a_plain a0 /\ a_map a = a_map a0 /\
+    a_matches a = map snd (sort_stable ks) /\
+    Permutation (a_matches a0) (a_matches a) /\
+    StronglySorted key_le (sort_stable ks).
+Proof. exact (run_assemble_spec py_isspace). Qed.
+Theorem C14_sort_stable : forall k l,
+  filter (fun y => fst y =? k) (sort_stable l) = filter (fun y => fst y =? k) l.
+Proof. exact sort_stable_stable. Qed.
+Print Assumptions C14_sorted.
+Print Assumptions C14_sort_stable.
+
+(* (6) every location of the text / JSON / XML / server reports lies inside
+   the file when the maps hold source positions *)
+Theorem C14_locations_in_file : forall md link tex ps locs,
+  md <> MHtml ->
+  Forall (fun p => Forall (map_in_file tex) (rp_map p)) ps ->
+  run_report py_isspace md link tex ps = Ok locs ->
+  Forall (fun l => 0 <= l_offset l < zlen tex /\
+                   0 <= l_offset l + l_length l - 1 < zlen tex) locs.
+Proof. exact (run_report_locations py_isspace). Qed.
+Print Assumptions C14_locations_in_file.
+
+(* non-vacuity: two parts, the second one flagged; "ab\n\ncd" *)
+Example C14_example :
+  run_assemble py_isspace
+    [ {| p_plain := [97;98]%N; p_map := [5;6]; p_matches := [] |};
+      {| p_plain := [99;100]%N; p_map := [1;2];
+         p_matches := [{| pm_offset := 1; pm_length := 1; pm_id := 0 |}] |} ]
+  = Ok {| a_plain := [97;98;10;10;99;100;10;10]%N; a_map := [5;6;6;6;1;2;2;2];
+          a_matches := [{| pm_offset := 5; pm_length := 1; pm_id := 0 |}] |}.
+Proof. vm_compute. reflexivity. Qed.
+Example C14_example_loc :
+  text_loc [97;10;98;99;10;100]%N 3 = (2, 2).
+Proof. vm_compute. reflexivity. Qed.
